@@ -36,11 +36,15 @@ import (
 // ---- event recorder ----
 
 type recChan struct {
-	mu  sync.Mutex
-	evs []event.Event
+	mu    sync.Mutex
+	evs   []event.Event
+	delay time.Duration // a deliberately slow pusher: every Send takes this long
 }
 
 func (c *recChan) Send(e event.Event) {
+	if c.delay > 0 {
+		time.Sleep(c.delay)
+	}
 	c.mu.Lock()
 	c.evs = append(c.evs, e)
 	c.mu.Unlock()
@@ -486,10 +490,15 @@ type FObs struct {
 const ftpFence = "OPTS UTF8 ON"
 const ftpFenceReply = "200 UTF8 mode enabled"
 
-func runFTP(lines []string) (FObs, string) {
+// runFTP drives one control connection.  burst=false: lock step (one line, its replies, next
+// line).  burst=true: ALL lines are written in ONE segment (a pipelining client) while the
+// recording channel is slow (slow per event), so that the service's event pump lags behind the
+// command loop; every line must still produce exactly one ftp.command event, in order.  Burst
+// lines are restricted by the generator to commands that answer with exactly one coded line.
+func runFTP(lines []string, burst bool, slow time.Duration) (FObs, string) {
 	var ob FObs
 	ob.Fs0 = resetFs()
-	ch := &recChan{}
+	ch := &recChan{delay: slow}
 	svc := newService("ftp", ch, nil, false)
 	cc, done := serve(svc, 21)
 	rd := bufio.NewReader(cc)
@@ -508,22 +517,18 @@ func runFTP(lines []string) (FObs, string) {
 	if l, err := rd.ReadString('\n'); err != nil || !strings.HasPrefix(l, "220 ") {
 		return fail(fmt.Sprintf("ftp greeting: %q %v", l, err))
 	}
-	for i, line := range lines {
-		msg := []byte(line + ftpFence + "\r\n")
-		go func() {
-			cc.SetWriteDeadline(time.Now().Add(10 * time.Second))
-			cc.Write(msg)
-		}()
+	// replies up to the fence reply
+	untilFence := func(i int) ([]int, error) {
 		codes := []int{}
 		for {
 			cc.SetReadDeadline(time.Now().Add(10 * time.Second))
 			l, err := rd.ReadString('\n')
 			if err != nil {
-				return fail(fmt.Sprintf("ftp line %d: %v", i, err))
+				return codes, fmt.Errorf("ftp line %d: %v", i, err)
 			}
 			l = strings.TrimRight(l, "\r\n")
 			if l == ftpFenceReply {
-				break
+				return codes, nil
 			}
 			if len(l) >= 4 && l[3] == ' ' {
 				if n, err := strconv.Atoi(l[:3]); err == nil {
@@ -531,9 +536,43 @@ func runFTP(lines []string) (FObs, string) {
 				}
 			}
 		}
-		ob.Codes = append(ob.Codes, codes)
 	}
 	want := 2 * len(lines)
+	if burst {
+		want = len(lines) + 1
+		msg := []byte(strings.Join(lines, "") + ftpFence + "\r\n")
+		go func() {
+			cc.SetWriteDeadline(time.Now().Add(10 * time.Second))
+			cc.Write(msg) // one segment
+		}()
+		flat, err := untilFence(0)
+		if err != nil {
+			return fail(err.Error())
+		}
+		for i := range lines {
+			cs := []int{}
+			if i < len(flat) {
+				cs = append(cs, flat[i])
+			}
+			if i == len(lines)-1 && len(flat) > len(lines) {
+				cs = append(cs, flat[len(lines):]...)
+			}
+			ob.Codes = append(ob.Codes, cs)
+		}
+	} else {
+		for i, line := range lines {
+			msg := []byte(line + ftpFence + "\r\n")
+			go func() {
+				cc.SetWriteDeadline(time.Now().Add(10 * time.Second))
+				cc.Write(msg)
+			}()
+			codes, err := untilFence(i)
+			if err != nil {
+				return fail(err.Error())
+			}
+			ob.Codes = append(ob.Codes, codes)
+		}
+	}
 	evs := ch.waitFor(func(evs []event.Event) bool { return len(evs) >= want })
 	go func() { cc.Write([]byte("QUIT\r\n")) }()
 	cc.SetReadDeadline(time.Now().Add(5 * time.Second))
@@ -544,12 +583,21 @@ func runFTP(lines []string) (FObs, string) {
 	}
 	ob.Events = []string{}
 	for k, e := range evs {
-		if k >= want {
-			break // the QUIT of the harness
-		}
 		c := e.Get("ftp.command")
-		if k%2 == 1 && c == ftpFence {
-			continue
+		if burst {
+			if c == ftpFence && k == len(evs)-1 {
+				continue // the single fence at the end of the segment
+			}
+			if c == "QUIT" && k >= len(lines) {
+				continue // the QUIT of the harness
+			}
+		} else {
+			if k >= want {
+				break // the QUIT of the harness
+			}
+			if k%2 == 1 && c == ftpFence {
+				continue
+			}
 		}
 		ob.Events = append(ob.Events, c)
 	}
